@@ -119,27 +119,31 @@ def check_prog(ctx, r, prog):
             continue
         root = ws["res"]["ok"]["root"]
         refs = [x.get("$ref") for x in (root.get("anyOf") or [])]
-        exp_refs = []
         defs = root.get("definitions", {})
+        # one any-of entry per part, each resolving to a definition equal to that part's own schema; definitions are matched
+        # by content (two parts may carry same-named message types from different modules: schemars then numbers the names)
+        unused = list(refs)
         for part in prog["parts"]:
             po = r.call({"prog": pn, "op": f"schema_for:{part['id']}:{kind}"})["res"]["ok"]
-            name = po["name"]
-            exp_refs.append(f"#/definitions/{name}")
-            d = defs.get(name)
-            if d is None:
-                ctx.violate("anyof-missing-def", f"{pn}: Contract {kind} schema lacks the definition of part {part['id']} ({name})",
-                            {"prog": pn, "kind": kind, "refs": refs, "part": part["id"]})
+            want = strip_root(po["root"])
+            hit = next((rf for rf in unused if rf and defs.get(rf.split("/")[-1]) == want), None)
+            if hit is None:
+                named = defs.get(po["name"])
+                if named is None:
+                    ctx.violate("anyof-missing-def", f"{pn}: Contract {kind} schema has no any-of entry for part {part['id']} ({po['name']})",
+                                {"prog": pn, "kind": kind, "refs": refs, "part": part["id"]})
+                else:
+                    ctx.violate("anyof-def-differs", f"{pn}: Contract {kind} schema's entry for part {part['id']} differs from the part's own schema",
+                                {"prog": pn, "kind": kind, "part": part["id"], "in_contract": named, "own": want})
                 continue
-            if d != strip_root(po["root"]):
-                ctx.violate("anyof-def-differs", f"{pn}: Contract {kind} schema's entry for part {part['id']} differs from the part's own schema",
-                            {"prog": pn, "kind": kind, "part": part["id"], "in_contract": d, "own": strip_root(po["root"])})
+            unused.remove(hit)
             for dn, dv in (po["root"].get("definitions") or {}).items():
                 if defs.get(dn) != dv:
                     ctx.violate("anyof-subdef", f"{pn}: definition {dn} used by part {part['id']} missing/different in the contract {kind} schema",
                                 {"prog": pn, "kind": kind, "part": part["id"], "definition": dn})
-        if sorted(refs) != sorted(exp_refs) or len(refs) != len(set(refs)):
-            ctx.violate("anyof-entries", f"{pn}: Contract {kind} schema any-of is {refs}, expected one entry per part {exp_refs}",
-                        {"prog": pn, "kind": kind, "refs": refs, "expected": exp_refs})
+        if unused or len(refs) != len(prog["parts"]):
+            ctx.violate("anyof-entries", f"{pn}: Contract {kind} schema any-of is {refs}: not exactly one entry per part ({len(prog['parts'])} parts, unmatched {unused})",
+                        {"prog": pn, "kind": kind, "refs": refs, "unmatched": unused})
         if len(prog["parts"]) > 1:
             ctx.nontrivial([pn, "anyof", kind])
 
